@@ -1092,13 +1092,14 @@ def pick_presentation(fmt, rng, p_plain=0.5):
 
 class Pair:
     """one correspondence case"""
-    __slots__ = ('img', 'sizes', 'ctag', 'trace', 'poke', 'kind', 'feed', 'ctor', 'allowed', 'expected', 'companion', 'after_error')
+    __slots__ = ('img', 'sizes', 'ctag', 'trace', 'poke', 'kind', 'feed', 'ctor', 'allowed', 'expected', 'companion', 'after_error', 'drive', 'k', 'form')
 
     def __init__(self, img, sizes, ctag, trace=False, poke=False, kind='insp', feed='bytes', ctor=None,
                  allowed=None, expected=None):
         self.img, self.sizes, self.ctag, self.trace, self.poke, self.kind = img, sizes, ctag, trace, poke, kind
         self.feed, self.ctor, self.allowed, self.expected = feed, ctor or {}, allowed, expected
         self.companion = None
+        self.drive, self.k, self.form = None, 1, 0      # wrap pairs: consumption protocol (drive_wrapper), interruption point, call form
         self.after_error = 'stop'          # 'continue': the caller catches eat_chunk errors and keeps feeding (request inspk)
 
     def case(self):
@@ -1117,13 +1118,15 @@ class Pair:
                               'mode': self.companion[2]}
         if self.kind == 'wrap' and (self.allowed or self.expected):
             c.update(allowed=self.allowed, expected=self.expected)
+        if self.kind == 'wrap' and self.drive:
+            c.update(drive=self.drive, k=self.k, form=self.form)
         if self.img.wellformed:            # lets the C07 search apply the declared-size oracle to a disagreeing case
             c.update(declared=self.img.declared, size_at=self.img.size_at, params=self.img.params)
         return c
 
     def line(self):
         if self.kind == 'wrap':
-            return wrap_line(self.img.field, self.sizes, self.allowed, self.expected)
+            return wrap_line(self.img.field, drive_sizes(self.sizes, self.drive, self.k), self.allowed, self.expected)
         if self.after_error == 'continue':
             return req('inspk', self.img.fmt, self.img.field, sizes_field(self.sizes), 1 if self.trace else 0)
         return insp_line(self.img.fmt, self.img.field, self.sizes, self.trace)
@@ -1308,6 +1311,11 @@ def add_companions(pairs, rng, p=0.15):
 
 
 def run_impl(pair, rng=None):
+    if pair.kind == 'wrap' and pair.drive:
+        try:
+            return '\t' + drive_wrapper(pair.img.data, pair.sizes, pair.drive, pair.allowed, pair.expected, pair.k, pair.form)
+        except Exception as e:
+            return 'CRASH:%s:%s' % (type(e).__name__, e)
     if pair.kind == 'wrap':
         return run_wrap_x(pair.allowed, pair.expected, pair.img.data, pair.sizes, pair.companion)
     q = poker(rng) if (pair.poke and rng is not None) else None
@@ -1339,6 +1347,8 @@ def run_pairs(ctx, pairs, on_result=None, workers=WORKERS):
         if on_result:
             on_result(p, impl)
         if p.kind == 'wrap':
+            if p.drive:
+                rep = '\t' + wrap_tail(rep)          # the per-read decisions are not observed by these protocols
             impl, rep = wrap_canon(impl, p.expected), wrap_canon(rep, p.expected)
         if impl != rep:
             out.append(Disagreement(p.case(), impl[-1500:], rep[-1500:]))
@@ -1669,3 +1679,217 @@ def vhdx_far(size, meta_off, nmeta=5, vidx=2, item_off=None, tail=0, stale=None,
                                                 total=256 * K + item_off + 8)[0][256 * K:]
     return Sparse('vhdx', ext, meta_off + len(meta) + tail, 'wf/vhdx/far', size,
                   dict(size=size, meta_off=meta_off, nmeta=nmeta, vidx=vidx, item_off=item_off, stale=stale))
+
+
+# --------------------------------------------------------------------------
+# calling conventions and object protocols (the pinned public interface, written down here as data - NOT read
+# from the tree under test - so that a renamed / reordered / keyword-only parameter is a concrete failing input)
+
+SIGNATURES = {
+    # name: (required positional parameters, [(optional parameter, default), ...])
+    'InspectWrapper': (['source'], [('expected_format', None), ('allowed_formats', None)]),
+    'FileInspector': ([], [('tracing', False)]),
+    'eat_chunk': (['chunk'], []),
+    'read': (['size'], []),
+    'region': (['name'], []),
+    'detect_file_format': (['filename'], []),
+    'get_inspector': (['format_name'], []),
+    'from_file': (['filename'], []),
+}
+
+
+def call_forms(name, values):
+    """every legal call form (args, kwargs) for the logical arguments `values` {parameter: value}: required
+    parameters positionally or by keyword, each optional parameter positionally (only as a prefix, the earlier
+    ones then being passed too), by keyword or omitted when it has its default value; keyword order permuted"""
+    req_names, opt = SIGNATURES[name]
+    forms = []
+    names = req_names + [n for n, _ in opt]
+    defaults = dict(opt)
+    for npos in range(len(names) + 1):
+        args = [values[n] if n in values else defaults[n] for n in names[:npos]]
+        rest = names[npos:]
+        if any(n in req_names and n not in values for n in rest):
+            continue
+        must = [n for n in rest if n in req_names or (n in values and values[n] != defaults.get(n, object()))]
+        may = [n for n in rest if n not in must]
+        for k in range(1 << len(may)):
+            kw = must + [n for i, n in enumerate(may) if k >> i & 1]
+            kwargs = {n: (values[n] if n in values else defaults[n]) for n in kw}
+            forms.append((list(args), kwargs))
+            if len(kw) >= 2:
+                forms.append((list(args), dict(reversed(list(kwargs.items())))))
+    return forms
+
+
+def make_wrapper(source, allowed, expected, rng=None, form=None):
+    F = insp_impl.fi()
+    forms = call_forms('InspectWrapper', {'source': source, 'expected_format': expected, 'allowed_formats': allowed or None})
+    a, k = forms[form % len(forms)] if form is not None else (rng.choice(forms) if rng else forms[0])
+    return F.InspectWrapper(*a, **k)
+
+
+WRAPPER_DRIVES = ('read', 'read-kw', 'read-rest', 'close-twice', 'for', 'next', 'next-after-stop', 'break-resume', 'next-iter',
+                  'iter-twice', 'mixed', 'deepcopy')
+
+
+def drive_wrapper(data, sizes, drive, allowed=None, expected=None, k=1, form=None):
+    """present the chunks through an InspectWrapper using one consumption protocol and return
+    'end<TAB>format/formats<TAB>per-inspector verdicts' (the tail of insp_impl.run_wrap's rendering).
+    `k` is the chunk index at which the interrupting protocols interrupt."""
+    import copy
+    F = insp_impl.fi()
+    chunks = insp_impl.cut(data, sizes)
+    file_like = drive in ('read', 'read-kw', 'read-rest', 'close-twice', 'deepcopy')
+    w = make_wrapper(insp_impl.Src(data) if file_like else iter(chunks), allowed, expected, form=form)
+    end = 'done'
+    ws = [w]
+    try:
+        if drive in ('read', 'close-twice'):
+            for n in sizes:
+                w.read(n)
+        elif drive == 'read-kw':
+            for n in sizes:
+                w.read(size=n)
+        elif drive == 'read-rest':              # the last reads replaced by read(-1): only defined for whole-rest reads
+            for n in sizes[:k]:
+                w.read(n)
+            w.read(-1)
+        elif drive == 'deepcopy':
+            for n in sizes[:k]:
+                w.read(n)
+            w2 = copy.deepcopy(w)               # a half-used wrapper and its copy, both used further
+            ws.append(w2)
+            live = [w, w2]
+            first = None
+            for n in sizes[k:]:
+                for x in list(live):
+                    try:
+                        x.read(n)
+                    except Exception as e:      # the expected inspector aborts the stream: for each copy on its own
+                        live.remove(x)
+                        first = first or e
+            if first is not None and not live:
+                raise first
+            if first is not None:
+                end = 'ONE-COPY-ABORTED:' + insp_impl.errname(first)
+        elif drive == 'for':
+            for _ in w:
+                pass
+        elif drive == 'next':
+            while True:
+                try:
+                    next(w)
+                except StopIteration:
+                    break
+        elif drive == 'next-after-stop':
+            for _ in w:
+                pass
+            for _ in range(2):
+                try:
+                    next(w)
+                    end = 'yielded-after-StopIteration'
+                except StopIteration:
+                    pass
+        elif drive == 'break-resume':
+            n = 0
+            for _ in w:
+                n += 1
+                if n >= k:
+                    break
+            insp_impl.show_fmt(w)               # the intermediate query the consumer left the loop for
+            for _ in w:
+                pass
+        elif drive == 'next-iter':
+            while True:
+                try:
+                    next(iter(w))
+                except StopIteration:
+                    break
+        elif drive == 'iter-twice':
+            it1, it2 = iter(w), iter(w)
+            flip = 0
+            while True:
+                try:
+                    next(it1 if flip % 2 == 0 else it2)
+                    flip += 1
+                except StopIteration:
+                    break
+        elif drive == 'mixed':
+            try:
+                for _ in range(k):
+                    next(w)
+                for _ in w:
+                    pass
+            except StopIteration:
+                pass
+        else:
+            raise ValueError(drive)
+    except F.ImageFormatError as e:
+        end = 'mismatch' if 'does not match expected format' in str(e) else 'raised:ImageFormatError'
+    except StopIteration:
+        end = 'raised:StopIteration'
+    except Exception as e:
+        end = 'raised:' + insp_impl.errname(e)
+    outs = []
+    for x in ws:
+        x.close()
+        if drive == 'close-twice':
+            x.close()
+        order = list(F.ALL_FORMATS)
+        insps = sorted(whitebox.w_inspectors(x), key=lambda i: order.index(i.NAME))
+        errd = whitebox.w_errored(x)
+        per = ';'.join('%s%s %s' % (i.NAME, '!' if i in errd else '', insp_impl.show_verdict(i, None)) for i in insps)
+        outs.append(end + '\t' + insp_impl.show_fmt(x) + '\t' + per)
+    if len(set(outs)) > 1:
+        return 'COPIES-DIFFER\t' + ' <> '.join(outs)
+    return outs[0]
+
+
+def drive_sizes(sizes, drive, k):
+    """the chunking the model sees for a drive (read-rest merges the reads after the k-th)"""
+    if drive == 'read-rest':
+        return list(sizes[:k]) + [sum(sizes[k:])]
+    return list(sizes)
+
+
+def wrap_tail(reply):
+    """end, format/formats, per-inspector verdicts of a wrap reply (the per-read decisions dropped)"""
+    return '\t'.join(reply.split('\t')[1:])
+
+
+INSPECTOR_CLONES = ('deepcopy',)      # pickling is not part of the pinned interface (SafetyCheck.null uses a lambda)
+
+
+def run_with_clone(fmt, data, sizes, how, k, ctor_form=0, eat_kw=False):
+    """feed an inspector, clone it after chunk k (copy.deepcopy / pickle round trip), keep feeding BOTH; the
+    rendering of the clone (or a COPIES-DIFFER marker).  `ctor_form` picks a call form of the constructor,
+    `eat_kw` passes the chunk by keyword."""
+    import copy
+    import pickle
+    F = insp_impl.fi()
+    forms = call_forms('FileInspector', {})
+    a, kw = forms[ctor_form % len(forms)]
+    objs = [F.ALL_FORMATS[fmt](*a, **kw)]
+    raised = [None]
+    pos = 0
+    for n_i, n in enumerate(sizes):
+        chunk = data[pos:pos + n]
+        pos += n
+        if n_i == k and how:
+            objs.append(copy.deepcopy(objs[0]) if how == 'deepcopy' else pickle.loads(pickle.dumps(objs[0])))
+            raised.append(raised[0])
+        for j, o in enumerate(objs):
+            if raised[j]:
+                continue
+            try:
+                o.eat_chunk(chunk=chunk) if eat_kw else o.eat_chunk(chunk)
+            except Exception as e:
+                raised[j] = insp_impl.errname(e)
+    outs = []
+    for o, r in zip(objs, raised):
+        o.finish()
+        outs.append(insp_impl.show_state(o) + '\t' + insp_impl.show_verdict(o, r))
+    if len(set(outs)) > 1:
+        return 'COPIES-DIFFER\t' + ' <> '.join(outs)
+    return outs[-1]
